@@ -154,13 +154,24 @@ class Runner:
         mdib.mdib_lock = S.SchedLock(self.sched, 'mdib_lock', on_release=lambda _l: self._record())
         mdib._tr_lock = S.SchedLock(self.sched, 'tr_lock', reentrant=False, yield_when_free=False,
                                      yield_after_release=False)  # noqa: SLF001
+        # reading the version group is a switch point as well: a reader that does not keep writers out while it
+        # collects its answer (wrong lock, no lock) can then be overtaken between collecting and labelling
+        sched = self.sched
+        base = type(mdib)
+        self._saved_class = base
+
+        def version_group(this):
+            sched.yield_point('read:mdib_version_group')
+            return base.mdib_version_group.fget(this)
+        mdib.__class__ = type(base.__name__, (base,), {'mdib_version_group': property(version_group)})
         self._tables = []
-        if fine:
-            for name in ('descriptions', 'states', 'context_states'):
-                table = getattr(mdib, name)
-                lock = S.SchedLock(self.sched, f'{name}.lock')
-                self._tables.append((table, table._lock))  # noqa: SLF001
-                self._set_table_lock(table, lock)
+        for name in ('descriptions', 'states', 'context_states'):
+            table = getattr(mdib, name)
+            # coarse: the table locks only block (a task waiting for one is not runnable), they add no switch points
+            lock = S.SchedLock(self.sched, f'{name}.lock', yield_nested=True) if fine else S.SchedLock(
+                self.sched, f'{name}.lock', yield_when_free=False, yield_after_release=False)
+            self._tables.append((table, table._lock))  # noqa: SLF001
+            self._set_table_lock(table, lock)
 
     @staticmethod
     def _set_table_lock(table, lock):
@@ -172,6 +183,8 @@ class Runner:
     def _restore(self):
         for obj, name, value in self._saved:
             setattr(obj, name, value)
+        if getattr(self, '_saved_class', None) is not None:
+            self.mdib.__class__ = self._saved_class
         for table, lock in self._tables:
             self._set_table_lock(table, lock)
 
